@@ -1767,3 +1767,20 @@ func (ci *cdInfo) guardRel(b, a *ssa.BasicBlock) *Form {
 	rel.relTo = a
 	return rel.guardOfM(b, memo, map[*ssa.BasicBlock]bool{})
 }
+
+// operatesOn: fn is a method of the named type (suffix match on the receiver's type string), or a top-level function
+// one of whose parameters is a pointer to it (a method written as a function).
+func operatesOn(fn *ssa.Function, typeSuffix string) bool {
+	if fn == nil || fn.Parent() != nil {
+		return false
+	}
+	if r := fn.Signature.Recv(); r != nil {
+		return strings.HasSuffix(r.Type().String(), typeSuffix)
+	}
+	for _, pr := range fn.Params {
+		if pt, ok := pr.Type().(*types.Pointer); ok && strings.HasSuffix(pt.Elem().String(), typeSuffix) {
+			return true
+		}
+	}
+	return false
+}
